@@ -14,13 +14,32 @@ namespace {
 
 enum { K_PUB, K_ELL, K_NK };
 const char *const KN[] = {"PUB", "ELL"};
-enum { H_DEFAULT, H_EXPLICIT, H_CUSTOM, H_FAILING, H_PREFIX, H_DELEG_PREFIX, H_DELEG_BIP324, H_NH };   // H_DELEG_*: a caller-supplied callback that hands over to the exported hash function   // ECDH: default(NULL)/sha256/custom/failing ; ellswift: bip324/prefix/custom/failing
+enum { H_DEFAULT, H_EXPLICIT, H_CUSTOM, H_FAILING, H_PREFIX, H_DELEG_PREFIX, H_DELEG_BIP324, H_TWOSTEP, H_NH };   // H_DELEG_*: a caller-supplied callback that hands over to the exported hash function   // ECDH: default(NULL)/sha256/custom/failing ; ellswift: bip324/prefix/custom/failing
 
 struct HashCtl { int fail = 0; const unsigned char *salt; int calls = 0; };
 int custom_ecdh(unsigned char *out, const unsigned char *x32, const unsigned char *y32, void *data) {
     HashCtl *c = (HashCtl *)data; c->calls++;
     if (c->fail) return 0;
     ref::Sha256 h; h.write(c->salt, 32); h.write(x32, 32); h.write(y32, 32); h.finish(out);
+    return 1;
+}
+// a KDF-style hasher that produces its output in two blocks: the second block is derived after the first was written
+int twostep_ecdh(unsigned char *out, const unsigned char *x32, const unsigned char *y32, void *data) {
+    HashCtl *c = (HashCtl *)data; c->calls++;
+    unsigned char h1[32], h2[32];
+    { ref::Sha256 h; uint8_t t = 1; h.write(&t, 1); h.write(c->salt, 32); h.write(x32, 32); h.write(y32, 32); h.finish(h1); }
+    memcpy(out, h1, 16);
+    { ref::Sha256 h; uint8_t t = 2; h.write(&t, 1); h.write(c->salt, 32); h.write(x32, 32); h.write(y32, 32); h.finish(h2); }
+    memcpy(out + 16, h2, 16);
+    return 1;
+}
+int twostep_xdh(unsigned char *out, const unsigned char *x32, const unsigned char *a64, const unsigned char *b64, void *data) {
+    HashCtl *c = (HashCtl *)data; c->calls++;
+    unsigned char h1[32], h2[32];
+    { ref::Sha256 h; uint8_t t = 1; h.write(&t, 1); h.write(c->salt, 32); h.write(x32, 32); h.write(a64, 64); h.finish(h1); }
+    memcpy(out, h1, 16);
+    { ref::Sha256 h; uint8_t t = 2; h.write(&t, 1); h.write(c->salt, 32); h.write(x32, 32); h.write(b64, 64); h.finish(h2); }
+    memcpy(out + 16, h2, 16);
     return 1;
 }
 int custom_xdh(unsigned char *out, const unsigned char *x32, const unsigned char *a64, const unsigned char *b64, void *data) {
@@ -69,6 +88,7 @@ struct XdhSim {
         int ret;
         if (S.hasher == H_DEFAULT) ret = L01(secp256k1_ecdh(frugal_ctx(use_static, ctx, "secp256k1_ecdh"), out.p(), &peer, P.sk, NULL, NULL));
         else if (S.hasher == H_EXPLICIT || S.hasher == H_PREFIX || S.hasher == H_DELEG_PREFIX || S.hasher == H_DELEG_BIP324) ret = L01(secp256k1_ecdh(frugal_ctx(use_static, ctx, "secp256k1_ecdh"), out.p(), &peer, P.sk, secp256k1_ecdh_hash_function_sha256, NULL));
+        else if (S.hasher == H_TWOSTEP) ret = L01(secp256k1_ecdh(frugal_ctx(use_static, ctx, "secp256k1_ecdh"), out.p(), &peer, P.sk, twostep_ecdh, &ctl));
         else ret = L01(secp256k1_ecdh(frugal_ctx(use_static, ctx, "secp256k1_ecdh"), out.p(), &peer, P.sk, custom_ecdh, &ctl));
         r.cmp();
         if (!mon_quiet_since(mk)) { r.violate("C18", "callback", "secp256k1_ecdh", "callback on valid arguments: " + g_mon.last_illegal); return; }
@@ -79,6 +99,7 @@ struct XdhSim {
         ref::Pt sh = ref::mul(ref::U256::from_be(P.sk), mp);
         uint8_t want[32];
         if (S.hasher == H_CUSTOM) { uint8_t x[32], y[32]; sh.x.to_be(x); sh.y.to_be(y); HashCtl c2; c2.salt = S.salt; custom_ecdh(want, x, y, &c2); }
+        else if (S.hasher == H_TWOSTEP) { uint8_t x[32], y[32]; sh.x.to_be(x); sh.y.to_be(y); HashCtl c2; c2.salt = S.salt; twostep_ecdh(want, x, y, &c2); }
         else ref::ecdh_default_hash(sh, want);
         r.cmp();
         if (memcmp(out.p(), want, 32) != 0) { r.violate("C18", "ecdh_output", "secp256k1_ecdh", "output differs from hash(secret * PeerPoint) by the group law (peer key " + hex(m.bytes).substr(0, 66) + ")"); return; }
@@ -115,6 +136,7 @@ struct XdhSim {
             ret = L01(secp256k1_ellswift_xdh(frugal_ctx(use_static, ctx, "secp256k1_ellswift_xdh"), out.p(), ea, eb, P.sk, party_arg, secp256k1_ellswift_xdh_hash_function_prefix, node_prefix)); }
         else if (S.hasher == H_DELEG_PREFIX || S.hasher == H_DELEG_BIP324) { DelegCtl dc{S.prefix, S.hasher == H_DELEG_BIP324};
             ret = L01(secp256k1_ellswift_xdh(frugal_ctx(use_static, ctx, "secp256k1_ellswift_xdh"), out.p(), ea, eb, P.sk, party_arg, deleg_xdh, &dc)); }
+        else if (S.hasher == H_TWOSTEP) ret = L01(secp256k1_ellswift_xdh(frugal_ctx(use_static, ctx, "secp256k1_ellswift_xdh"), out.p(), ea, eb, P.sk, party_arg, twostep_xdh, &ctl));
         else ret = L01(secp256k1_ellswift_xdh(frugal_ctx(use_static, ctx, "secp256k1_ellswift_xdh"), out.p(), ea, eb, P.sk, party_arg, custom_xdh, &ctl));
         r.cmp();
         if (!mon_quiet_since(mk)) { r.violate("C18", "callback", "secp256k1_ellswift_xdh", "callback on valid arguments: " + g_mon.last_illegal); return; }
@@ -126,6 +148,7 @@ struct XdhSim {
         uint8_t x[32], want[32]; sh.x.to_be(x);
         if (S.hasher == H_DEFAULT || S.hasher == H_EXPLICIT || S.hasher == H_DELEG_BIP324) ref::bip324_hash(ea, eb, x, want);
         else if (S.hasher == H_PREFIX || S.hasher == H_DELEG_PREFIX) ref::prefix_hash(S.prefix, ea, eb, x, want);
+        else if (S.hasher == H_TWOSTEP) { HashCtl c2; c2.salt = S.salt; twostep_xdh(want, x, ea, eb, &c2); }
         else { HashCtl c2; c2.salt = S.salt; custom_xdh(want, x, ea, eb, &c2); }
         r.cmp();
         if (memcmp(out.p(), want, 32) != 0) { r.violate("C18", "xdh_output", "secp256k1_ellswift_xdh", "output differs from hash(x(secret * Decode(theirs))) (received " + hex(m.bytes).substr(0, 40) + "..., party " + std::to_string(party) + ")"); return; }
